@@ -4,12 +4,15 @@ Tie: histories of view creation (basic indexing incl. negative steps/newaxis/ell
 views of views), non-view operations, in-place updates on any member (item assignment with basic / integer-array (repeated) / boolean
 indices and broadcast values, augmented assignment, ufunc out= with and without where=), members dropped mid-history, run on /repo:
 after EVERY statement each live tensor is compared with the NumPy mirror obtained by executing the same statements on arrays
-(values, pairwise shares_memory, .base, object identity, constant flag), and with the functional model evaluated in Coq."""
+(values, pairwise shares_memory, .base, object identity, constant flag), and with the functional model evaluated in Coq.
+Pointer level: harness/heapcorr.py compares, after every statement, the whole object graph (creators, variables, bases, view children,
+consumer sets, array objects) with the heap computed by Model/Heap.v -- the transcription of _in_place_op / DuplicatingGraph."""
 import json
 
 import numpy as np
 
 import graphhist as gh
+import heapcorr
 import inplace
 import progs
 from common import known_findings, rng_for
@@ -170,6 +173,8 @@ def run(rep, work, tier, seed, props, replay=None):
         i = sorted(bad, key=lambda i: len(builders[i].stmts))[0]
         rep.violation({"kind": "values differ from the functional model (Model/GraphP.v run on the functional meaning of the in-place updates) although they agree with the NumPy mirror",
                        "broken": "correspondence C04: GraphCorr.fcase_ok", "stmts": builders[i].stmts, "n_disagreements": len(bad)}, no_input=True)
+    # pointer-level correspondence (Model/Heap.v): one graph epoch (no clear_graph), mostly succeeding in-place operations
+    heap_cov = heapcorr.run(rep, work, seed, 2500 if tier == "thorough" else 400, 30 if tier == "thorough" else 18, replay=replay, tag="c04heap", p_fail=0.1, p_clear=0.0)
     if not props["ok"]:
         rep.violation({"kind": "proof obligations of Props/C04.v no longer check", "broken": "Props/C04.v", "log": props["log"][-1500:]}, no_input=not viol)
 
@@ -188,6 +193,7 @@ def run(rep, work, tier, seed, props, replay=None):
         "traces_validated_against_impl": len(ok_idx) - len(bad),
         "model_impl_disagreements": len(bad),
         "input_distribution": {"statements": gh.op_histogram(builders), "index_kinds": _index_hist(builders)},
+        "pointer_level_heap": heap_cov,
     })
     rep.assumptions += ["leaves are created by copy (mg.tensor(array)); tensors over overlapping user arrays (copy=False) are outside the property",
                         "shape assignment (t.shape = s) is exercised by C15's probes, not yet by these histories"]
